@@ -20,7 +20,7 @@ def RULE(tier):
             "execution with <= %d deviations from the default answers (config tock/start/limit, leaf kind, per-step "
             "yield/return/raise/KeyboardInterrupt/extend/remove/failing enter). Monitor: per-doer automaton "
             "enter recur* (clean|cease|abort) exit. distinct_nontrivial = executions with >=1 deviation whose full "
-            "event trace was not seen before." % ("2" if tier == "quick" else "3 (<=4 leaves)", BOUND(tier)))
+            "event trace was not seen before." % ("2" if tier == "quick" else "2 with <= 4 leaves, 3 with <= 3 leaves", BOUND(tier)))
 
 
 def EXHAUSTIVE(tier):
@@ -31,7 +31,7 @@ def jobs(tier):
     if tier == "quick":
         sh = sched.shapes(2, maxtop=3, maxleaves=4, always=True)
     else:
-        sh = sched.shapes(3, maxtop=3, maxleaves=4, always=True)
+        sh = sched.thorough_shapes(always=True)
     return [("C01", s) for s in sh]
 
 
